@@ -58,6 +58,9 @@ def run(chk, quick, rnd):
         if plen <= 20:
             lm = content("ascii", plen, rnd).decode()
             add(dict(fmt="lmhash", pw=list(lm.upper().encode("cp437")[:14].ljust(14, b"\0"))), kind="lmhash", pw=lm)
+    # mysql323 leaves out blanks and tabs - and nothing else: every other white-space-like byte is part of the password
+    for pw in (b"a b\tc", b" lead", b"a\nb", b"a\rb", b"a\x0bb", b"a\x0cb", b"a\x1cb", b"a\x85b", b"a\xa0b", b"\n", b"ab\r\n"):
+        add(dict(fmt="mysql323", pw=list(pw)), kind="mysql323", pw=pw)
     wd = tlc.WORK / "C02_tlcfmt_in"
     wd.mkdir(parents=True, exist_ok=True)
     (wd / "cases.json").write_text(json.dumps(cases))
